@@ -155,6 +155,81 @@ theorem raw_names_eq_ignore_case_eq (n1 n2 : Bytes) :
     Tr.Reader.raw_names_eq_ignore_case n1 n2 = .ok (rawNamesEqIgnoreCase n1 n2) := by
   simp [Tr.Reader.raw_names_eq_ignore_case, rawNamesEqIgnoreCase, raw_names_eq_loop_eq]
 
+/-! `raw_name_to_str` (the lowercase-free text form the `name()` accessors are built on) -/
+
+theorem each_eq2 (l res : Bytes) : Tr.Reader.raw_name_to_str_each2 l res = .ok (res ++ escapeLabel l) := by
+  induction l generalizing res with
+  | nil => simp [Tr.Reader.raw_name_to_str_each2, escapeLabel]
+  | cons c r ih =>
+    unfold Tr.Reader.raw_name_to_str_each2
+    have hc : (c.toNat == 0x2e) = (c == 46) := (u8_beq c 46).symm
+    simp only [hc, UInt8.ofNat_toNat]
+    by_cases h : (c == 46) = true
+    · have h' : c = 46 := by simpa using h
+      simp only [h, if_true, ih]
+      simp [escapeLabel, List.flatMap_cons, h']
+    · have h' : ¬ c = 46 := by simpa using h
+      simp only [h, Bool.false_eq_true, if_false, ih]
+      simp [escapeLabel, List.flatMap_cons, h']
+
+theorem each_eq3 (l res : Bytes) : Tr.Reader.raw_name_to_str_each3 l res = .ok (res ++ escapeLabel l) := by
+  induction l generalizing res with
+  | nil => simp [Tr.Reader.raw_name_to_str_each3, escapeLabel]
+  | cons c r ih =>
+    unfold Tr.Reader.raw_name_to_str_each3
+    have hc : (c.toNat == 0x2e) = (c == 46) := (u8_beq c 46).symm
+    simp only [hc, UInt8.ofNat_toNat]
+    by_cases h : (c == 46) = true
+    · have h' : c = 46 := by simpa using h
+      simp only [h, if_true, ih]
+      simp [escapeLabel, List.flatMap_cons, h']
+    · have h' : ¬ c = 46 := by simpa using h
+      simp only [h, Bool.false_eq_true, if_false, ih]
+      simp [escapeLabel, List.flatMap_cons, h']
+
+theorem raw_name_to_str_loop_eq (p : Bytes) (fuel off ind : Nat) (res : Bytes) :
+    Tr.Reader.raw_name_to_str_loop p fuel ind off res = rawNameToStrLoop p fuel off ind res := by
+  induction fuel generalizing off ind res with
+  | zero => rfl
+  | succ n ih =>
+    unfold Tr.Reader.raw_name_to_str_loop rawNameToStrLoop
+    cases hi : idx p off with
+    | ok b =>
+      simp only [Res.bind_ok, isPtr, Res.pure_eq]
+      by_cases h0 : b = 0
+      · subst h0; rfl
+      · have h0' : (b == 0) = false := by simpa using h0
+        simp only [h0', Bool.false_eq_true, if_false]
+        by_cases hp : (b &&& 0xc0 == 0xc0) = true
+        · simp only [hp, if_true]
+          cases hw : be16 p off with
+          | ok w =>
+            simp only [Res.bind_ok]
+            have := ih (w &&& 0x3fff) (ind + 1) res
+            grind
+          | err e => simp
+          | panic => simp
+          | diverge => simp
+        · simp only [hp, Bool.false_eq_true, if_false]
+          have e1 : off + 1 + b = off + 1 + b := rfl
+          cases hs : slice p (off + 1) (off + 1 + b) with
+          | ok lab =>
+            simp only [Res.bind_ok, each_eq2, each_eq3]
+            by_cases he : res.isEmpty = true
+            · have := ih (off + 1 + b) ind (res ++ escapeLabel lab)
+              simp [he, this]
+            · have := ih (off + 1 + b) ind (res ++ 46 :: escapeLabel lab)
+              simp [he, this]
+          | err e => simp
+          | panic => simp
+          | diverge => simp
+    | err e => simp
+    | panic => simp
+    | diverge => simp
+
+theorem raw_name_to_str_eq (p : Bytes) (off : Nat) : Tr.Reader.raw_name_to_str p off = rawNameToStr p off := by
+  simp [Tr.Reader.raw_name_to_str, rawNameToStr, raw_name_to_str_loop_eq, nameFuel]
+
 /-- all four equalities at once (restated in the theorem modules of C03, C05, C06, C07) -/
 theorem reader_tie (p pre n1 n2 : Bytes) (off : Nat) :
     Tr.Reader.raw_name_len p = rawNameLen p ∧
